@@ -14,7 +14,7 @@
  'clauses': 'iterator-range constructor static_vector(b, e) with It = const T*, for every capacity N >= 1 and every input range of L >= 0 elements (L unrelated to N: '
             '0..2N and beyond): size == min(L, N), element k equals input[k] for every k < size (excess input dropped, prefix kept), slots from size on RAW, each '
             'element copy-constructed exactly once over RAW storage; the input (an exact-size object) is only read, inside [b, e); nothing outside the exact-size storage is written',
- 'witness': {'unwind': 8},
+ 'witness': {'unwind': 8}, 'fallback': 'ghost-free',
  'assumptions': ['every input element is LIVE, instantiated at the ghost slot and at the element the loop reads', 'the object under construction starts with storage in which no element is alive',
                  'b <= e point into one array (valid range)', 'T = ELEM, It = const ELEM*, N = CAP arbitrary in [1, 2^36], L in [0, 2^36]'],
 } @*/
